@@ -32,6 +32,6 @@ func TestCheck(t *testing.T) {
 		Assumptions: []string{"single client goroutine; maintenance is synchronous (schedules = generated positions), true thread interleavings are covered by C34",
 			"expiry is not reachable through the plain Set/Del API of this version (no TTL parameter), so expiry is exercised in C06/C12 through transactions"},
 	}
-	pbt.Add(s, &pbt.Spec[plain.Case]{Name: "history", Gen: gen, Run: plain.Run, Quick: 640, Thorough: 30000, Shards: 16})
+	pbt.Add(s, &pbt.Spec[plain.Case]{Name: "history", Gen: gen, Run: plain.Run, Quick: 400, Thorough: 30000, Shards: 16})
 	s.Main(t)
 }
